@@ -1,3 +1,3 @@
 From Coq Require Import ExtrOcamlBasic.
-From Termemu Require Import Case.
-Extraction "model.ml" run_case.
+From Termemu Require Import Case SCase.
+Extraction "model.ml" run_any.
